@@ -193,6 +193,8 @@ pub const CONTENT_PATTERNS: &[&str] = &[
     "(?P<key>[a-z]+)=",
     // a `value` group that need not take part in the match: without it the whole match counts
     "(?P<value>[0-9]+ )?[a-z]+",
+    // `.` stops at a line break
+    "=.*",
 ];
 pub const INVALID_PATTERNS: &[&str] = &[
     "(", "[a-", "(?P<value>", "*a", "a{2,1}", "\\", "a)(b", "x)|(y", ")", "[a-z]+)=(?:[0-9]", "(?P<value>[a-z]+",
@@ -310,6 +312,10 @@ fn content_extract(pattern: &str, content: &str) -> Result<String, String> {
             }
             Ok(String::new())
         }
+        "=.*" => Ok(match content.find('=') {
+            Some(i) => content[i..].split('\n').next().unwrap_or("").to_string(),
+            None => String::new(),
+        }),
         "(?s).*" => Ok(content.to_string()),
         "zzz-never-matche[s]" => Ok(String::new()),
         "[0-9]+" => {
